@@ -1,5 +1,8 @@
 //! Source reader
 
+/// numerals saturate here, so that arithmetic on what was read cannot overflow 64 bits
+const NUMERAL_MAX: isize = 0x7FFF_FFFF;
+
 #[derive(Debug)]
 pub struct SourceCursor {
     /// position
@@ -295,17 +298,17 @@ impl SourceCursor {
             let ch = self.peek_n(0);
             match ch {
                 '0'..='9' => {
-                    no = no.saturating_mul(16) | ch as isize - '0' as isize;
+                    no = (no.saturating_mul(16) | ch as isize - '0' as isize).min(NUMERAL_MAX);
                     self.next();
                     continue;
                 },
                 'a'..='f' => {
-                    no = no.saturating_mul(16) | (0x0a + (ch as isize - 'a' as isize));
+                    no = (no.saturating_mul(16) | (0x0a + (ch as isize - 'a' as isize))).min(NUMERAL_MAX);
                     self.next();
                     continue;
                 },
                 'A'..='F' => {
-                    no = no.saturating_mul(16) | (0x0a + (ch as isize - 'A' as isize));
+                    no = (no.saturating_mul(16) | (0x0a + (ch as isize - 'A' as isize))).min(NUMERAL_MAX);
                     self.next();
                     continue;
                 },
@@ -340,7 +343,7 @@ impl SourceCursor {
                 let ch = self.peek_n(0);
                 match ch {
                     '0'..='8' => {
-                        no = no.saturating_mul(8).saturating_add(ch as isize - '0' as isize);
+                        no = no.saturating_mul(8).saturating_add(ch as isize - '0' as isize).min(NUMERAL_MAX);
                         self.next();
                         continue;
                     },
@@ -355,7 +358,7 @@ impl SourceCursor {
             let ch = self.peek_n(0);
             match ch {
                 '0'..='9' => {
-                    no = no.saturating_mul(10).saturating_add(ch as isize - '0' as isize);
+                    no = no.saturating_mul(10).saturating_add(ch as isize - '0' as isize).min(NUMERAL_MAX);
                     self.next();
                 },
                 _ => break,
